@@ -55,8 +55,17 @@ def _files():
     files["vendor/lib.py"] = "def g():\n    print(3601)\n"
     files["generated/auto/gen.py"] = "def h(n):\n    print(3601)\n    return n * 3602\n"
     files["generated/kept.py"] = "def k(n):\n    print(3603)\n    return n * 3604\n"
-    files[".thailintignore"] = "legacy/\n"
-    cfg = load.deep_merge(cfg, {"improper-logging": {"ignore": ["vendor/", "generated/auto/*"]}, "magic-numbers": {"ignore": ["vendor/", "generated/auto/*"]}})
+    # every command needs something to report: placement rules and a regex compiled in a loop
+    files["generated/notes.txt"] = "not a python file\n"
+    files["generated/auto/readme.md"] = "generated\n"
+    files["perfcase/regex_loop.py"] = "import re\n\n\ndef scan(lines):\n    for line in lines:\n        re.search('x+', line)\n"
+    # repository-level patterns with a nested directory prefix (one per carrier)
+    files["archive/old/dead.py"] = "def d(n):\n    print(3605)\n    return n * 3606\n"
+    files["archive/parked/idle.py"] = "def i(n):\n    print(3607)\n    return n * 3608\n"
+    files["archive/live.py"] = "def l(n):\n    print(3609)\n    return n * 3610\n"
+    files[".thailintignore"] = "legacy/\narchive/old/\n"
+    cfg = load.deep_merge(cfg, {"file-placement": {"directories": {"generated": {"allow": [r".*\.py$"]}, "generated/auto": {"deny": [{"pattern": r".*\.md$", "message": "no documents among generated code"}]}}}})
+    cfg = load.deep_merge(cfg, {"ignore": ["archive/parked/"], "improper-logging": {"ignore": ["vendor/", "generated/auto/*"]}, "magic-numbers": {"ignore": ["vendor/", "generated/auto/*"]}})
     files[".thailint.yaml"] = yaml_dump(cfg)
     return files, index
 
@@ -72,6 +81,7 @@ def _place(parent: str, depth: int):
     root = project(files, name="proj", parent=holder)
     other = base / "elsewhere"
     other.mkdir()
+    (other / "link").symlink_to(root, target_is_directory=True)
     return base, root, other, index
 
 
@@ -104,6 +114,10 @@ def _spellings(root: Path, cwd: Path, sub: str | None):
     out = {"abs": str(target), "rel": rel, "dotted": "./" + rel if not rel.startswith(".") else rel, "slashes": str(target).replace("/proj", "//proj/.", 1)}
     if rel != ".":
         out["trailing"] = rel + "/"
+    if sub is None and cwd.name == "elsewhere":
+        # the same project reached through a symbolic link that lives in this directory
+        out["symlink"] = "link"
+        out["symlink-abs"] = str(cwd / "link")
     return out
 
 
@@ -165,7 +179,7 @@ def run_item(item) -> Acc:
         for cwd_name in ("root", "subdir", "parent", "elsewhere"):
             sp = _spellings(root, cwds[cwd_name], None)
             for sname, path in sp.items():
-                if not item["full"] and (sname in ("dotted", "trailing") or (cwd_name in ("subdir", "parent") and sname != "rel")):
+                if not item["full"] and (sname in ("dotted", "trailing", "symlink-abs") or (cwd_name in ("subdir", "parent") and sname != "rel")):
                     continue
                 check(cmd, cwd_name, sname, path, "root-dir", ref[cmd])
         # file target: this command's own trigger file(s)
@@ -184,15 +198,17 @@ def run_item(item) -> Acc:
         if cmd in ("improper-logging", "print-statements", "magic-numbers"):
             # linter-level ignore pattern with a directory prefix, seen from INSIDE that directory
             exp_g = [t for t in ref[cmd][1] if t[1].startswith("generated/")]
-            for cwd_name, cwd, targets in (("in-generated", root / "generated", [".", "auto", "auto/gen.py", "kept.py"]), ("in-generated-auto", root / "generated" / "auto", [".", "gen.py", "../kept.py", ".."])):
+            for cwd_name, cwd, targets in (("in-generated", root / "generated", [".", "auto", "auto/gen.py", "kept.py"]), ("in-generated-auto", root / "generated" / "auto", [".", "gen.py", "../kept.py", ".."]),
+                                           ("in-archive", root / "archive", [".", "old", "old/dead.py", "parked", "parked/idle.py", "live.py"]), ("in-archive-old", root / "archive" / "old", [".", "dead.py", "../parked/idle.py", ".."])):
                 cwds[cwd_name] = cwd
+                exp_all = [t for t in ref[cmd][1] if t[1].startswith(("generated/", "archive/"))]
                 for tpath in targets:
                     tgt = os.path.normpath(os.path.join(cwd, tpath))
                     relt = os.path.relpath(tgt, root)
-                    exp_t = [t for t in exp_g if t[1] == relt or t[1].startswith(relt + "/")]
+                    exp_t = [t for t in exp_all if t[1] == relt or t[1].startswith(relt + "/")]
                     check(cmd, cwd_name, "rel", tpath, "inside-ignored-prefix", (1 if exp_t else 0, exp_t))
         if item["full"]:
-            for cwd_name in [c for c in cwds if not c.startswith("in-generated")]:
+            for cwd_name in [c for c in cwds if not c.startswith("in-")]:
                 for sname, path in _spellings(root, cwds[cwd_name], "tests").items():
                     exp_s = [t for t in ref[cmd][1] if t[1].startswith("tests/")]
                     check(cmd, cwd_name, sname, path, "sub-dir", (1 if exp_s else 0, exp_s))
@@ -200,7 +216,7 @@ def run_item(item) -> Acc:
     from src.api import Linter  # noqa: PLC0415
 
     for cwd_name, cwd in list(cwds.items()):
-        if cwd_name.startswith("in-generated"):
+        if cwd_name.startswith("in-"):
             continue
         for sname, path in _spellings(root, cwd, None).items():
             env.reset_caches()
